@@ -241,8 +241,14 @@ class Gen:
         self.counter = 0
 
     def name(self):
+        # consecutive identifiers are proper prefixes of each other (f3 / f3x / f3xy, in either order):
+        # XER elements are matched by name, so prefix pairs among siblings are a case split of the XER decoder
+        k, r = divmod(self.counter, 3)
         self.counter += 1
-        return "m%d" % self.counter
+        suf = ["", "x", "xy"]
+        if k % 2:
+            suf.reverse()
+        return "f%d%s" % (k, suf[r])
 
     def maybe_tag(self, default):
         r = self.rng
